@@ -94,6 +94,8 @@ pub struct StatusChannelReceiver<T> {
 impl<T> StatusChannelSender<T> {
   /// Best-effort send. If there is no receiver, this will fail silently.
   pub fn try_send(&self, t: T) -> Result<(), mio_channel::TrySendError<T>> {
+    #[cfg(rustdds_verif)]
+    crate::verif::sched::lock_point("StatusSender.before_waker_lock", &self.waker);
     let mut w = self.waker.lock().unwrap(); // lock already at the beginning
     match self.actual_sender.try_send(t) {
       Ok(()) => {
@@ -127,6 +129,8 @@ impl<T> StatusChannelReceiver<T> {
   }
 
   pub(crate) fn get_waker_update_lock(&self) -> std::sync::MutexGuard<'_, Option<Waker>> {
+    #[cfg(rustdds_verif)]
+    crate::verif::sched::lock_point("StatusReceiver.before_waker_lock", &self.waker);
     self.waker.lock().unwrap()
   }
 }
@@ -229,6 +233,8 @@ impl<T> Stream for StatusReceiverStream<'_, T> {
     match self.sync_receiver.try_recv() {
       Err(std::sync::mpsc::TryRecvError::Empty) => {
         // nothing available
+        #[cfg(rustdds_verif)]
+        crate::verif::sched::point("StatusStream.empty_before_waker_store");
         *w = Some(cx.waker().clone());
         Poll::Pending
       }
